@@ -22,6 +22,7 @@ func zzNoPanic(name string, f func()) {
 	f()
 }
 
+// zzDigits: an MCC / MNC made of n decimal digits.
 func zzDigits(l string, n int) string {
 	s := vx.String(l, n)
 	for i := 0; i < len(s); i++ {
@@ -29,6 +30,31 @@ func zzDigits(l string, n int) string {
 		vx.Assume(s[i] <= '9')
 	}
 	return s
+}
+
+// zzAnyText: an MCC / MNC as it may arrive in a request - nothing before the
+// conversion checks that it consists of digits. Each of the n bytes is of one
+// of five classes (forked): a digit, a hexadecimal letter, another ASCII
+// character, the lead byte of a two-byte character, a continuation byte.
+func zzAnyText(l string, n int) string {
+	b := make([]byte, n)
+	for i := range b {
+		switch vx.Choice(l+".class", 5) {
+		case 0:
+			d := vx.Byte(l + ".digit")
+			vx.Assume(d >= '0' && d <= '9')
+			b[i] = d
+		case 1:
+			b[i] = 'f'
+		case 2:
+			b[i] = 'z'
+		case 3:
+			b[i] = 0xC3
+		default:
+			b[i] = 0xA9
+		}
+	}
+	return string(b)
 }
 
 // zzArbitraryRequest: a body that parses into a charging data request. The
@@ -70,7 +96,14 @@ func zzArbitraryRequest(l string, supi string) models.ChfConvergedChargingChargi
 		id := &models.ChfConvergedChargingNfIdentification{NFName: vx.String(l+".nfname", 1), NodeFunctionality: "SMF"}
 		// group 1: PLMN id present with MCC/MNC of 0..3 digits
 		if d.on(1) {
-			id.NFPLMNID = &models.PlmnId{Mcc: zzDigits(l+".mcc", vx.Choice(l+".mcclen", 4)), Mnc: zzDigits(l+".mnc", vx.Choice(l+".mnclen", 4))}
+			switch vx.Choice(l+".plmnshape", vx.Param("plmnshapes", 3)) {
+			case 0: // digits, 0..3 each
+				id.NFPLMNID = &models.PlmnId{Mcc: zzDigits(l+".mcc", vx.Choice(l+".mcclen", 4)), Mnc: zzDigits(l+".mnc", vx.Choice(l+".mnclen", 4))}
+			case 1: // arbitrary text of 0..3 bytes as MNC
+				id.NFPLMNID = &models.PlmnId{Mcc: zzDigits(l+".mcc", 3), Mnc: zzAnyText(l+".mnc", vx.Choice(l+".mnclen", 4))}
+			default: // arbitrary text of 0..3 bytes as MCC
+				id.NFPLMNID = &models.PlmnId{Mcc: zzAnyText(l+".mcc", vx.Choice(l+".mcclen", 4)), Mnc: zzDigits(l+".mnc", 2+vx.Choice(l+".mnclen", 2))}
+			}
 		}
 		r.NfConsumerIdentification = id
 	}
@@ -145,7 +178,7 @@ func ZZ_C11_Create() {
 
 // C11 (update / release): the same for requests on a live session.
 //
-//gosx:property=C11 tier=quick unwind=40 timeout=30000 p.pairs.thorough=1
+//gosx:property=C11 tier=quick unwind=40 timeout=30000 p.pairs.thorough=1 p.plmnshapes=1
 func ZZ_C11_UpdateRelease() {
 	p := zzSetup()
 	zzAccount(zzSupi, 1, 1000000, 10)
@@ -275,6 +308,39 @@ func ZZ_C11_OneTimeEventAndSession() {
 	u, _ := zzUsageInd("u0", 1, 1, 2)
 	zzSmallUsage(&u)
 	req := models.ChfConvergedChargingChargingDataRequest{SubscriberIdentifier: zzSupi,
+		MultipleUnitUsage: []models.ChfConvergedChargingMultipleUnitUsage{u}}
+	c1 := &gin.Context{}
+	zzNoPanic("update handler panicked", func() { p.HandleChargingdataUpdate(c1, req, ref) })
+	vx.Assert("update answered 2xx or 4xx", zzStatus2xx(c1) || zzStatus4xx(c1))
+	c2 := &gin.Context{}
+	zzNoPanic("release handler panicked", func() { p.HandleChargingdataRelease(c2, req, ref) })
+	vx.Assert("release answered 2xx or 4xx", zzStatus2xx(c2) || zzStatus4xx(c2))
+	vx.Assert("no lock left held", vx.LocksHeld() == 0)
+}
+
+// C11 (unusual subscriber identifiers through a whole session): the SUPI is
+// used to build the name of the subscriber's CDR file. A session created for
+// an identifier with path separators or other unusual shapes is then updated
+// and released: no panic, 2xx/4xx, no lock left held.
+//
+//gosx:property=C11 tier=quick unwind=40 timeout=30000
+func ZZ_C11_OddSubscriberIds() {
+	p := zzSetup()
+	supi := []string{"imsi-1/2", "imsi-208930000000001/../x", "nai-user@realm", "imsi-20893 0001", "imsi-..", "imsi-" + zzLongString(300)}[vx.Choice("supi", 6)]
+	if strings.HasPrefix(supi, "imsi-") {
+		zzAccount(supi, 1, 1000000, 10)
+	}
+	c0 := &gin.Context{}
+	zzNoPanic("create handler panicked", func() { p.HandleChargingdataInitial(c0, zzCreateReq("create", supi)) })
+	vx.Assert("create answered 2xx or 4xx", zzStatus2xx(c0) || zzStatus4xx(c0))
+	loc := vx.HTTPHeader(c0, "Location")
+	if vx.HTTPStatus(c0) != 201 || !strings.HasPrefix(loc, zzRefPrefix) {
+		return
+	}
+	ref := loc[len(zzRefPrefix):]
+	u, _ := zzUsageInd("u0", 1, 1, 2)
+	zzSmallUsage(&u)
+	req := models.ChfConvergedChargingChargingDataRequest{SubscriberIdentifier: supi,
 		MultipleUnitUsage: []models.ChfConvergedChargingMultipleUnitUsage{u}}
 	c1 := &gin.Context{}
 	zzNoPanic("update handler panicked", func() { p.HandleChargingdataUpdate(c1, req, ref) })
